@@ -70,3 +70,20 @@ Definition sel_env (e : env) (now : Z) (wt : tmo) : selans * Z :=
 Definition retry_env (e : env) (fuel : nat) (ri T : tmo) (now : Z) : rres Z unit :=
   if tmo_neg T then mk_rres (RRaise E_VALUE) now [] 0 [] 0
   else retry_w (cb_env e) (sel_env e) fuel ri T now.
+
+(* ---- the same environment with a processing cost: every callback invocation takes e_cost ticks (the readiness is
+   sampled when the call starts).  _retry does not charge these costs to the timeout (only select() time is
+   subtracted), so with costs the retry interval is no longer irrelevant: each wake-up buys one more attempt and
+   e_cost more ticks.  When the selector is entered with the fd already ready it returns at once. *)
+Record envc := mk_envc { ec_env : env; ec_cost : Z }.
+
+Definition cb_envc (e : envc) (now : Z) : cbres unit * Z * Z :=
+  (if e_tau (ec_env e) <=? now then CbOk tt else CbBlock false, now + ec_cost e, ec_cost e).
+
+Definition sel_envc (e : envc) (now : Z) (wt : tmo) : selans * Z :=
+  if e_tau (ec_env e) <=? now then ({| sa_ready := true; sa_el := 0 |}, now)
+  else sel_env (ec_env e) now wt.
+
+Definition retry_envc (e : envc) (fuel : nat) (ri T : tmo) (now : Z) : rres Z unit :=
+  if tmo_neg T then mk_rres (RRaise E_VALUE) now [] 0 [] 0
+  else retry_w (cb_envc e) (sel_envc e) fuel ri T now.
